@@ -896,7 +896,7 @@ func c12SCPool(r *rand.Rand, n int) []c12SCKey {
 
 func engineLRUModel(ctx *Ctx) {
 	r := vlib.NewRand(ctx.Seed, ctx.Shard, "lrumodel")
-	n := ctx.N(20000, 500000)
+	n := ctx.N(60000, 3000000)
 	states := map[uint64]struct{}{}
 	capped := false
 	caps := []int{-1, 0, 1, 2, 3, 5}
